@@ -444,6 +444,20 @@ def layout_cases(run):
             rng.shuffle(rest)
             run.count("hist:layout-sweep" + (":degenerate" if _degenerate(bl) else ""))
             yield f"hist {km} {seed} " + " ".join(first + rest)
+    # point maps on layouts whose blocks OVERLAP: every ordered pair of position questions (a walk that remembers where
+    # the previous question ended must answer the next one like a fresh object)
+    def _overlapping(bl):
+        b = sorted(bl)
+        return any(b[i][1] > b[i + 1][0] for i in range(len(b) - 1))
+    pts = [t for t in tokens_for("compound.chrom.e") if t.startswith(("parent_to_relative_pos:", "relative_to_parent_pos:"))]
+    ov = [(bl, st) for bl, st in layouts if st in "+-" and _overlapping(bl)]
+    for bl, st in (ov if not quick else ov[:10]):
+        km = f"compound.none.e.{_lit(bl, st)}"
+        seed = rng.randint(0, 10 ** 6)
+        for x in pts:
+            for y in pts:
+                run.count("hist:point-pairs-on-overlapping-blocks")
+                yield f"hist {km} {seed} {x} {y}"
     # the same shape for every kind: one (or two) calling tokens first, then every argument-less question
     for km in [k for k in KINDMODES if k.endswith(".e")] + EXTRA_KINDMODES + [f"compound.{m}.e.deg" for m in G.MODES]:
         ms = method_tokens(km)
